@@ -10,8 +10,13 @@ Two variants are kept:
 
 * `AsIs.*`  — the code at the pinned commit, branch by branch (loop with fuel, because it can
   spin).  Only used for the `_fails` witnesses of DESIGN §5.8.
-* `Fixed.*` — the code after fixes/fix-C17-*.patch; this is what the correspondence run
-  compares with and what the full theorems are about.
+* `Fixed.*` — the code after the five `fix:` commits (known_findings.json "fixed: property=C17");
+  this is what the correspondence run compares with and what the full theorems are about.
+
+`decode_trailers_frame` exists in three states: at the pinned commit (`fixed = false`), after the
+first-colon / repeated-name repair but still dropping the unterminated last line and what
+follows a bare CR (`fixed = true, whole = false`: the code as the second review round found it),
+and as it is now (`fixed = true, whole = true`).
 
 Bodies and outputs are as in `Model/WebServer` (`BodyEv`, `Out`); `Pending` leaves all state
 untouched in both variants (every `ready!` sits before any mutation), so it is skipped.
@@ -87,14 +92,14 @@ def findTrailers (fixed : Bool) (buf : Bytes) : FT := scan fixed (buf.length + 1
 
 /-! ### `decode_trailers_frame` -/
 
-/-- the CRLF scan: segments that are terminated by CRLF; whatever follows the last CRLF is
-ignored (as the code does). -/
-def crlfLines (cur : Bytes) : Bytes → List Bytes
-  | [] => []
-  | [_] => []
+/-- the CRLF scan: segments that are terminated by CRLF.  With `whole`, what follows the last
+CRLF (a last line without its CRLF) is one more line; without, it is ignored (as the code did). -/
+def crlfLines (whole : Bool) (cur : Bytes) : Bytes → List Bytes
+  | [] => if whole && !cur.isEmpty then [cur.reverse] else []
+  | [x] => if whole then [(x :: cur).reverse] else []
   | a :: b :: rest =>
-    if a = 13 ∧ b = 10 then cur.reverse :: crlfLines [] rest
-    else crlfLines (a :: cur) (b :: rest)
+    if a = 13 ∧ b = 10 then cur.reverse :: crlfLines whole [] rest
+    else crlfLines whole (a :: cur) (b :: rest)
 
 /-- pieces of `l` separated by `sep` (`slice::split`): always at least one piece. -/
 def splitOn (sep : UInt8) (cur : Bytes) : Bytes → List Bytes
@@ -106,11 +111,17 @@ def splitFirst (sep : UInt8) (cur : Bytes) : Bytes → Bytes × Option Bytes
   | [] => (cur.reverse, none)
   | b :: r => if b = sep then (cur.reverse, some r) else splitFirst sep (b :: cur) r
 
-def stripSpace (value : Bytes) : Bytes :=
-  -- `value.split('\r').next().strip_prefix(" ").unwrap_or(value)`
-  match (splitOn 13 [] value).head? with
-  | some (32 :: r) => r
-  | _ => value
+def stripSpace (whole : Bool) (value : Bytes) : Bytes :=
+  if whole then
+    -- `value.strip_prefix(" ").unwrap_or(value)`
+    match value with
+    | 32 :: r => r
+    | _ => value
+  else
+    -- `value.split('\r').next().strip_prefix(" ").unwrap_or(value)`
+    match (splitOn 13 [] value).head? with
+    | some (32 :: r) => r
+    | _ => value
 
 /-- key and raw value of one trailer line.  As-is: `split(':')`, second piece is the value.
 Fixed: `splitn(2, ':')`. -/
@@ -124,11 +135,11 @@ def lineKV (fixed : Bool) (line : Bytes) : Option (Bytes × Bytes) :=
     | k :: v :: _ => some (k, v)
     | _ => none
 
-def parseLine (fixed : Bool) (line : Bytes) : Option Pair :=
+def parseLine (fixed : Bool) (line : Bytes) (whole : Bool := fixed) : Option Pair :=
   match lineKV fixed line with
   | none => none
   | some (k, v) =>
-    match parseName k, parseValue (stripSpace v) with
+    match parseName k, parseValue (stripSpace whole v) with
     | some k', some v' => some (k', v')
     | _, _ => none
 
@@ -137,10 +148,11 @@ def hmInsert (m : List Pair) (p : Pair) : List Pair := m.filter (fun q => !(q.1 
 
 /-- `Ok(Some(map))` = `some (some map)`, `Ok(None)` = `some none`, `Err` = `none`.
 `frame` includes the 5-byte header (whose length field the as-is code ignores). -/
-def decodeTrailersFrame (fixed : Bool) (frame : Bytes) : Option (Option (List Pair)) :=
+def decodeTrailersFrame (fixed : Bool) (frame : Bytes) (whole : Bool := fixed) :
+    Option (Option (List Pair)) :=
   if frame.length < 5 then some none
   else
-    match mapOpt (parseLine fixed) (crlfLines [] (frame.drop 5)) with
+    match mapOpt (fun l => parseLine fixed l whole) (crlfLines whole [] (frame.drop 5)) with
     | none => none
     | some ps => some (some (if fixed then ps else ps.foldl hmInsert []))
 
